@@ -31,6 +31,9 @@ LAUNCH_POOL = ["HOME", "LAUNCHV", "LV2", "A", "LIB", "PYTHONPATH", "PYTHONHOME",
 CANARIES = ["VERIF_LEAK_%d" % i for i in range(4)]
 SYSTEM_VARS = {"FLOW_SYS_INSTANCE": "/instance/dir", "FLOW_SYS_RUN_ID": "run-1"}
 SEPS = ["/", ":", "-", ".", " "]
+EMPTY_NAMES = ["void", "blank-e"]
+EMPTY_MODES = ["platform-empty", "default-empty", "both-empty", "platform-empty-over-default", "default-empty-under-platform"]
+KEY_FLATTEN = "C17:instance-flattening-replaces-default-platform-environment"
 
 
 def spell(r, name):
@@ -151,6 +154,32 @@ def gen_doc(index):
     meta.append(comp("nosel0", ABSENT, "no-selection"))
     meta.append(comp("nosel1", r.choice([None, None, ""]), "no-selection", r.choice([None, "bash", "javascript"])))
     meta.append(comp("defenv", spell(r, "environment"), "explicit-default", r.choice([None, None, "bash"])))
+    # declared-EMPTY environments ({}): named ones and the reserved default one, on the default platform only,
+    # the selected platform only, both, or empty on one side and with variables on the other.  Separate
+    # random stream: the draws above are unchanged.
+    r2 = vlib.rng(PROP, "empty", index)
+    for i, base in enumerate(EMPTY_NAMES):
+        mode = EMPTY_MODES[(index + 2 * i + r2.randrange(2)) % len(EMPTY_MODES)]
+        lit = {"A": "%s@%%s.A" % base, "OUT": "%s@%%s.OUT" % base}
+        if mode in ("default-empty", "both-empty", "default-empty-under-platform"):
+            environments["default"][spell(r2, base)] = {}
+        if mode in ("platform-empty", "both-empty", "platform-empty-over-default"):
+            environments["p1"][spell(r2, base)] = {}
+        if mode == "default-empty-under-platform":
+            environments["p1"][spell(r2, base)] = {k: v % "p1" for k, v in lit.items()}
+        if mode == "platform-empty-over-default":
+            environments["default"][spell(r2, base)] = {k: v % "default" for k, v in lit.items()}
+        meta.append(comp("e%d" % i, spell(r2, base), "named:" + base, r2.choice([None, None, "bash"])))
+    if index % 3 == 2:
+        for plat in ("default", "p1"):
+            for n in [n for n in environments[plat] if n.lower() == "environment"]:
+                del environments[plat][n]
+        mode = ("default-empty", "platform-empty", "both-empty")[(index // 3) % 3]
+        if mode in ("default-empty", "both-empty"):
+            environments["default"][spell(r2, "environment")] = {}
+        if mode in ("platform-empty", "both-empty"):
+            environments["p1"][spell(r2, "environment")] = {}
+
     # spelling-invariance siblings: the same component with the environment name spelled lower / UPPER /
     # Capitalised / aLTERNATING.  Derived deterministically (no random draws): every other case stays as it was.
     for cm, c in zip(list(meta), list(components)):
@@ -196,16 +225,16 @@ class LaunchEnvironment:
         os.environ.update(self.saved)
 
 
-def build_graph(doc, platform):
+def build_graph(doc, platform, primitive=True):
     from experiment.model.frontends.flowir import FlowIRConcrete
     import experiment.model.conf as conf
     import experiment.model.graph as graph
     concrete = FlowIRConcrete(copy.deepcopy(doc), platform, None)
     cfg = conf.FlowIRExperimentConfiguration(
         path=None, platform=platform, variable_files=None, system_vars=dict(SYSTEM_VARS), is_instance=False,
-        createInstanceFiles=False, primitive=True, concrete=concrete, updateInstanceFiles=False,
+        createInstanceFiles=False, primitive=primitive, concrete=concrete, updateInstanceFiles=False,
         variable_substitute=True, manifest=None, validate=False)
-    return graph.WorkflowGraph(configuration=cfg, platform=platform, primitive=True)
+    return graph.WorkflowGraph(configuration=cfg, platform=platform, primitive=primitive)
 
 
 def spelling_class(s):
@@ -227,8 +256,47 @@ def raw_value_of(doc, platform, name, key):
     return out
 
 
-def judge(case, platform, cm, wg, w):
-    """One (document, platform, component) configuration."""
+def env_matches(exp, got):
+    """The comparison rules of judge() as a predicate (empty values lenient, DEFAULTS not judged)."""
+    if not isinstance(got, dict):
+        return False
+    for k, v in exp.items():
+        if k == "DEFAULTS":
+            continue
+        if v == "":
+            if got.get(k, "") != "":
+                return False
+        elif got.get(k) != v:
+            return False
+    return all(k in exp or k == "DEFAULTS" for k in got)
+
+
+class _Counting:
+    """Worker facade: the replicated route keeps its own counters so that the floors of the primitive
+    (package-level) route keep their meaning."""
+    def __init__(self, w, route):
+        self.w, self.prefix = w, ("" if route == "primitive" else route + "_")
+        self.samples, self.max_samples = w.samples, (w.max_samples if route == "primitive" else 0)
+
+    def count(self, name, n=1):
+        self.w.count(self.prefix + name, n)
+
+    def evaluated(self):
+        self.w.evaluated()
+        if self.prefix:
+            self.w.count(self.prefix + "evaluations")
+
+    def distinct(self, key):
+        self.w.distinct(self.prefix + key)
+
+    def sample(self, obj):
+        self.w.sample(obj)
+
+
+def judge(case, platform, cm, wg, w0, route="primitive"):
+    """One (document, platform, component) configuration on one route (primitive = package-level graph,
+    replicated = the graph an experiment instance runs on)."""
+    w = _Counting(w0, route)
     doc, launch = case["doc"], case["launch"]
     selection, interp = cm["selection"], cm["interpreter"]
     node = "stage0.%s" % cm["name"]
@@ -251,9 +319,44 @@ def judge(case, platform, cm, wg, w):
         w.count("defined_on_" + info["where"])
     if interp:
         w.count("interpreter_components")
-    witness = {"doc": doc, "launch": launch, "platform": platform, "component": cm,
+    witness = {"doc": doc, "launch": launch, "platform": platform, "component": cm, "route": route,
                "expected": exp if status == "ok" else {"error": "FlowIREnvironmentUnknown", "name": exp},
                "observed": got if raised is None else {"raised": type(raised).__name__, "message": str(raised)[:300]}}
+    # declared-empty environments ({}): defined with no variables
+    if info["class"] in ("named", "default-environment-defined", "default-environment-is-launch", "named-unknown"):
+        nm = (selection or "").lower() or "environment"
+        kind_e = "reserved" if nm == "environment" else "named"
+        pe = ref.lookup(doc["environments"], platform, nm)
+        de = ref.lookup(doc["environments"], "default", nm) if platform != "default" else None
+        if platform == "default":
+            if pe == {}:
+                w.count("declared_empty_%s_default_platform_selected" % kind_e)
+        elif pe == {} and de is None:
+            w.count("declared_empty_%s_on_selected_platform_only" % kind_e)
+        elif pe == {} and de == {}:
+            w.count("declared_empty_%s_on_both" % kind_e)
+        elif pe is None and de == {}:
+            w.count("declared_empty_%s_on_default_only" % kind_e)
+        elif pe == {} and de:
+            w.count("declared_empty_%s_on_selected_platform_over_default_variables" % kind_e)
+        elif pe and de == {}:
+            w.count("declared_empty_%s_on_default_under_platform_variables" % kind_e)
+
+    def bad(what):
+        key = None
+        if (route == "replicated" and platform != "default" and info.get("where") == "both" and raised is None
+                and isinstance(got, dict)):
+            # structural classifier of the known finding: the result is exactly what the declared sources give
+            # when the default platform's same-named environment is dropped (replaced wholesale, not layered)
+            nm2 = (selection or "").lower() or "environment"
+            envs2 = copy.deepcopy(doc["environments"])
+            for n in [n for n in envs2.get("default", {}) if n.lower() == nm2]:
+                del envs2["default"][n]
+            st2, exp2, _ = ref.build(envs2, platform, selection, interp, launch, SYSTEM_VARS)
+            if st2 == "ok" and env_matches(exp2, got):
+                key = KEY_FLATTEN
+        w0.violation(("[replicated graph] " if route == "replicated" else "") + what, witness, finding_key=key)
+
     # structural class
     sel_name = (selection or "").lower()
     defs = [n for p in (platform, "default") for n in (doc["environments"].get(p) or {}) if n.lower() == sel_name]
@@ -292,16 +395,16 @@ def judge(case, platform, cm, wg, w):
     if status == "unknown":
         w.count("expect_unknown_environment_error")
         if raised is None:
-            w.violation("component %s selects environment %r which neither platform %r nor the default platform "
-                        "defines, but an environment was built: %r" % (node, selection, platform, got), witness)
+            bad("component %s selects environment %r which neither platform %r nor the default platform "
+                        "defines, but an environment was built: %r" % (node, selection, platform, got))
         elif type(raised).__name__ != "FlowIREnvironmentUnknown":
             w.count("unknown_environment_reported_as_" + type(raised).__name__)
         else:
             w.count("unknown_environment_reported")
         return
     if raised is not None:
-        w.violation("environmentForNode(%s) on platform %r raised %s: %s" % (
-            node, platform, type(raised).__name__, str(raised)[:200]), witness)
+        bad("environmentForNode(%s) on platform %r raised %s: %s" % (
+            node, platform, type(raised).__name__, str(raised)[:200]))
         return
     # canary clause
     for cn in CANARIES:
@@ -313,13 +416,13 @@ def judge(case, platform, cm, wg, w):
                 elif cn in info["imported"]:
                     w.count("canary_present_explicitly_imported")
                 else:
-                    w.violation("launch-environment variable %s leaked into the environment of %s on platform %r "
-                                "(selection %r) without being imported" % (cn, node, platform, selection), witness)
+                    bad("launch-environment variable %s leaked into the environment of %s on platform %r "
+                                "(selection %r) without being imported" % (cn, node, platform, selection))
                     return
             else:
                 w.count("canary_absent")
     if not isinstance(got, dict):
-        w.violation("environmentForNode(%s) returned %r" % (node, got), witness)
+        bad("environmentForNode(%s) returned %r" % (node, got))
         return
     # exact comparison (an empty value may be dropped; the DEFAULTS key itself is not judged)
     for k, v in exp.items():
@@ -328,23 +431,23 @@ def judge(case, platform, cm, wg, w):
         if v == "":
             w.count("empty_valued_variables_not_judged")
             if got.get(k, "") != "":
-                w.violation("variable %s of %s on %r is %r, declared sources give an empty value" % (
-                    k, node, platform, got.get(k)), witness)
+                bad("variable %s of %s on %r is %r, declared sources give an empty value" % (
+                    k, node, platform, got.get(k)))
                 return
             continue
         if k not in got:
-            w.violation("variable %s=%r is missing from the environment of %s on platform %r (selection %r)" % (
-                k, v, node, platform, selection), witness)
+            bad("variable %s=%r is missing from the environment of %s on platform %r (selection %r)" % (
+                k, v, node, platform, selection))
             return
         if got[k] != v:
-            w.violation("variable %s of %s on platform %r (selection %r) is %r, declared sources give %r" % (
-                k, node, platform, selection, got[k], v), witness)
+            bad("variable %s of %s on platform %r (selection %r) is %r, declared sources give %r" % (
+                k, node, platform, selection, got[k], v))
             return
     for k in got:
         if k not in exp and k != "DEFAULTS":
             origin = "the launch environment" if k in launch else "an undeclared source"
-            w.violation("variable %s=%r in the environment of %s on platform %r (selection %r) comes from %s" % (
-                k, got[k], node, platform, selection, origin), witness)
+            bad("variable %s=%r in the environment of %s on platform %r (selection %r) comes from %s" % (
+                k, got[k], node, platform, selection, origin))
             return
     w.count("environments_equal_to_reference")
     if len(w.samples) < w.max_samples and info["class"] == "named" and info["imported"]:
@@ -402,18 +505,23 @@ def run_case(case, w, only=None):
     for platform in ("default", "p1"):
         if only and only["platform"] != platform:
             continue
-        try:
-            wg = build_graph(case["doc"], platform)
-        except Exception as e:
-            w.count("graph_construction_failed")
-            w.note_inconclusive("could not build the graph for document %s on %s: %r" % (case.get("index"), platform, e))
-            continue
-        for cm in case["components"]:
-            if only and only["component"]["name"] != cm["name"]:
+        for route in ("primitive", "replicated"):
+            if only and only.get("route", "primitive") != route:
                 continue
-            if not (only and only.get("metamorphic")):
-                judge(case, platform, cm, wg, w)
-            judge_spelling(case, platform, cm, wg, w)
+            try:
+                wg = build_graph(case["doc"], platform, primitive=(route == "primitive"))
+            except Exception as e:
+                w.count("graph_construction_failed")
+                w.note_inconclusive("could not build the %s graph for document %s on %s: %r" % (
+                    route, case.get("index"), platform, e))
+                continue
+            for cm in case["components"]:
+                if only and only["component"]["name"] != cm["name"]:
+                    continue
+                if not (only and only.get("metamorphic")):
+                    judge(case, platform, cm, wg, w, route)
+                if route == "primitive":
+                    judge_spelling(case, platform, cm, wg, w)
     w.count("documents")
 
 
@@ -423,7 +531,7 @@ def run_job(job, w):
         comps = [wit["component"]]
         case = {"doc": wit["doc"], "launch": wit["launch"], "components": comps, "index": "replay"}
         run_case(case, w, only={"platform": wit["platform"], "component": wit["component"],
-                                "metamorphic": bool(wit.get("metamorphic"))})
+                                "metamorphic": bool(wit.get("metamorphic")), "route": wit.get("route", "primitive")})
         return
     for index in range(job["start"], job["start"] + job["count"]):
         run_case(gen_doc(index), w)
@@ -447,6 +555,11 @@ def main():
             "environment has it",
             "a variable whose declared value is empty may be absent or empty in the result; whether the DEFAULTS key "
             "itself is kept is not judged",
+            "every configuration is judged on two routes: the primitive (package-level) graph and the replicated graph "
+            "(primitive=False: FlowIRConcrete.instance() flattens the platform onto 'default', what an experiment "
+            "instance runs on); counters of the second route carry the prefix replicated_",
+            "an environment declared empty ({}) is DEFINED with no variables: system variables only, no fallback to "
+            "the launch environment, no unknown-environment error",
             "a component that explicitly names the environment 'environment' while nobody defines it is not judged "
             "against the reference model; it IS covered by the spelling-invariance clause (every case variant of a "
             "selection, reserved names 'environment' and 'none' included, must give the same dictionary or the same "
@@ -458,7 +571,9 @@ def main():
     c.max_samples = 3
     rp = vlib.load_replay(sys.argv)
     if rp is not None:
-        vlib.fanout("checks.C17", [{"kind": "replay", "witness": rp["witness"]}], c, timeout=120)
+        wit = rp["witness"]
+        c.sample({"replayed": {k: wit.get(k) for k in ("platform", "component", "route", "metamorphic", "spelling")}})
+        vlib.fanout("checks.C17", [{"kind": "replay", "witness": wit}], c, timeout=120)
         sys.exit(c.finish())
     quick = c.tier == "quick"
     n_docs = 120 if quick else 2800
@@ -478,6 +593,15 @@ def main():
     c.floor("defined_on_default", 80 if quick else 2000)
     c.floor("reference_to_own-and-launch", 60 if quick else 1500)
     c.floor("interpreter_components", 200 if quick else 5000)
+    for name, q, t in (("declared_empty_named_on_selected_platform_only", 30, 700),
+                       ("declared_empty_named_on_default_only", 30, 700), ("declared_empty_named_on_both", 30, 700),
+                       ("declared_empty_named_on_selected_platform_over_default_variables", 25, 600),
+                       ("declared_empty_named_on_default_under_platform_variables", 25, 600),
+                       ("declared_empty_reserved_on_selected_platform_only", 20, 500),
+                       ("declared_empty_reserved_on_default_only", 20, 500), ("declared_empty_reserved_on_both", 20, 500),
+                       ("replicated_evaluations", 1500, 40000),
+                       ("replicated_environments_equal_to_reference", 1000, 30000)):
+        c.floor(name, q if quick else t)
     c.floor("spelling_variants_compared", 3000 if quick else 80000)
     c.floor("spelling_named", 2000 if quick else 50000)
     c.floor("spelling_reserved_none", 200 if quick else 5000)
